@@ -921,6 +921,9 @@ def rule_normalise(ctx, R):
         return
     R.analyse(b.name)
     cfg = normal_cfg(b)
+    # normalising the limbs is all it does: it never writes the sign (the callers set it, before or after)
+    sign_writes = [st["span"]["at"] for blk in b.blocks if not blk["cleanup"] for st in blk["stmts"] if st["k"] == "assign" and any(isinstance(e, dict) and e.get("n") == "pos" for e in st["p"]["proj"])]
+    R.check(not sign_writes, "shrink:sign_untouched", "shrink_to_fit leaves the sign alone (it is called after the sign of a result was set): %s" % sign_writes, b.span)
     heads = sorted({h for (_, h) in cfg.back_edges()})
     if not R.anchor(len(heads) == 1, "shrink:loop", "the normalisation loop"):
         return
